@@ -8,7 +8,8 @@ KS = ["KNote", "KSP", "KTev"]
 RULE = ("every generated line is given to NoteEvent/StarPowerEvent/TrackEvent.ParsedData.from_chart_line (all three kinds on every line): canonical N/S/E lines with 1-20 digit numbers, "
         "leading zeros, pads of blanks/tabs/U+00A0/U+3000, non-ASCII decimal digits, trailing newline, E words containing tabs, quotes, '='; canonical lines of the other six kinds; "
         "a fixed list of near misses (N 8, N 07, S 1, S 64, two words, tab separators, ...) and single-character mutations of canonical lines; judged against the reference "
-        "recogniser/decoder (Spec/RefRegex.v) inside Coq. Non-trivial: the line is accepted by some kind or is a one-character mutation / near miss of an accepted line; distinct by (kind, line)")
+        "recogniser/decoder (Spec/RefRegex.v) inside Coq. Track level: sections of N / S 2 / E lines (zero-length phrases, empty words, non-ASCII spellings) through Chart.from_file: the parsed track must hold exactly "
+        "the written data. Non-trivial: the line is accepted by some kind or is a one-character mutation / near miss of an accepted line; every track case; distinct by (kind, line) / text")
 ASSUMPTIONS = ["numerals have at most 4300 digits (CPython's int() limit is modelled as ValueError but not generated)",
                "Python's capture groups equal the model's extractors on accepted strings: exercised by this correspondence, proved for the model (C07_*_accept)"]
 
@@ -33,16 +34,64 @@ def cases(ctx, n):
     return out
 
 
+T_IN = "((bool * list (Z * Z) * list (Z * Z) * list (Z * str)) * %s)" % PARSE_IN
+T_VERDICT = "fun i o => parse_verdict cfg (snd i) o"
+T_SPEC = "fun i o => C07t_spec (fst i) o"
+
+
+def track_case(rng, items=None):
+    """A section of N / S / E lines (ticks non-decreasing per kind) through Chart.from_file: the parsed track must hold
+    exactly the written data (every S line incl. zero-length ones, every E word)."""
+    if items is None:
+        n = rng.choice([1, 3, 6, 10])
+        t = 0
+        items = []
+        for _ in range(n):
+            t += rng.choice([0, 1, 48, 192])
+            k = rng.choice(["N", "N", "S", "E"])
+            if k == "N":
+                items.append(["N", t, rng.randrange(5), rng.choice([0, 0, 96])])
+            elif k == "S":
+                items.append(["S", t, rng.choice([0, 0, 1, 96, 1000])])
+            else:
+                items.append(["E", t, rng.choice(["solo", "soloend", "x=1", "a\"b", "歌", ""])])
+    lines = []
+    for it in items:
+        if it[0] == "N":
+            l = "%d = N %d %d" % (it[1], it[2], it[3])
+        elif it[0] == "S":
+            l = "%d = S 2 %d" % (it[1], it[2])
+        else:
+            l = "%d = E %s" % (it[1], it[2])
+        if rng.random() < 0.2 and it[0] != "E":
+            from . import instr_gen as ig
+            l = ig.exotic_line(rng, l)
+        lines.append(l)
+    text = chart_text(tracks=[("ExpertSingle", lines)])
+    ch, exc, out = parse_case(text)
+    nl = coq_list("(%s, %s)" % (coq_Z(i[1]), coq_Z(i[2])) for i in items if i[0] == "N")
+    sl = coq_list("(%s, %s)" % (coq_Z(i[1]), coq_Z(i[2])) for i in items if i[0] == "S")
+    el = coq_list("(%s, %s)" % (coq_Z(i[1]), coq_str(i[2])) for i in items if i[0] == "E")
+    return dict(case=dict(kind="track", items=items, text=text), in_term="((true, %s, %s, %s), %s)" % (nl, sl, el, parse_in_term(text)), out_term=out,
+                nontrivial=True, tags=["track", "impl_error" if exc is not None else "impl_ok"], signature="C07t:" + key_of(text))
+
+
 def run(ctx, only=None):
+    rng = ctx["rng"]
     if only:
-        cs = [lg.dec_case(c["kind"], c["line"]) for c in only if c]
+        cs = [lg.dec_case(c["kind"], c["line"]) for c in only if c and c.get("kind") in lg.KINDS]
+        ts = [track_case(rng, c["items"]) for c in only if c and c.get("kind") == "track"]
     else:
         cs = cases(ctx, 2400 if ctx["tier"] == "quick" else 60000)
-    return run_cases("C07", cs, lg.DEC_IN, lg.DEC_OUT, lg.DEC_VERDICT, lg.DEC_SPEC, shard_size=400)
+        ts = [track_case(rng, [["S", 0, 0], ["N", 0, 0, 0], ["S", 10, 5], ["S", 20, 0], ["E", 20, "solo"]])]
+        while len(ts) < (60 if ctx["tier"] == "quick" else 2000):
+            ts.append(track_case(rng))
+    return merge([run_cases("C07", cs, lg.DEC_IN, lg.DEC_OUT, lg.DEC_VERDICT, lg.DEC_SPEC, shard_size=400),
+                  run_cases("C07t", ts, T_IN, PARSE_OUT, T_VERDICT, T_SPEC, shard_size=20)])
 
 
 def search(ctx, result):
-    cs = cases(ctx, 12000)
+    cs = [lg.dec_case(k, w, ["regex_diff_witness"]) for w in regex_witnesses() for k in KS] + cases(ctx, 12000)
     r = run_cases("C07s", cs, lg.DEC_IN, lg.DEC_OUT, lg.DEC_VERDICT, lg.DEC_SPEC, shard_size=400)
     return dict(viol=r["viol"], evaluations=r["evaluations"], note="re-sampled %d cases" % len(cs))
 
